@@ -62,6 +62,11 @@ CHECKS['C14'] = dict(text='Symbolic execution of add_module / add_item / the res
              'accepted <=> no two declarations share an item path, and that each declared item is in its own module\'s definition set only.',
              note='item level only: file names, directory creation, prologue/epilogue order and formatting (lib.rs::build, write_module) are file-system code outside the claim',
              design='4/C14')
+CHECKS['C15'] = dict(text='Symbolic execution of the singleton / extern-value handling with every address symbolic over the whole isize range and value types over '
+             'scalars, pointers, arrays and unresolvable names: on accepted paths z3 proves the stored singleton and extern-value addresses equal the '
+             'declared numbers with the declared type and visibility; a missing address, an unresolvable type or a negative number must be rejected.',
+             note='semantic stage only: the emitted accessor bodies (pointer indirection, None on null) dereference absolute addresses and cannot be executed by the engines available here; <= 2 extern values',
+             design='4/C15')
 NA = {}
 ALL = [json.loads(l)['id'] for l in open('properties.jsonl')]
 for p in ALL:
